@@ -32,6 +32,7 @@ rounds = [
     (9, 'seeded9', 'EVAL-round9-first-contact.txt', 'EVAL-round9-on-head.txt'),
     (10, 'seeded10', 'EVAL-round10-first-contact.txt', 'EVAL-round10-on-head.txt'),
     (11, 'seeded11', 'EVAL-round11-first-contact.txt', 'EVAL-round11-on-head.txt'),
+    (12, 'seeded12', 'EVAL-round12-first-contact.txt', 'EVAL-round12-on-head.txt'),
 ]
 rows, summary = [], []
 for rnd, d, first, after in rounds:
@@ -70,7 +71,7 @@ for rnd, d, first, after in rounds:
 def refac_first(path):
     rf = parse_eval(path)
     alarmed = sorted(k for k, v in rf.items() if v not in ('NONE', 'n/a'))
-    return f'{len(alarmed)} of {len(rf)} raised an alarm in some property ({", ".join(alarmed)})' if rf else 'not recorded'
+    return (f'{len(alarmed)} of {len(rf)} raised an alarm in some property' + (f' ({", ".join(alarmed)})' if alarmed else '')) if rf else 'not recorded'
 refac_first1 = refac_first(f'{V}/refactorings/EVAL-first-contact.txt')
 refac_first2 = refac_first(f'{V}/refactorings/EVAL-round2-first-contact.txt')
 refac_first3 = refac_first(f'{V}/refactorings/EVAL-round3-first-contact.txt')
@@ -80,6 +81,7 @@ refac_first6 = refac_first(f'{V}/refactorings/EVAL-round6-first-contact.txt')
 refac_first7 = refac_first(f'{V}/refactorings/EVAL-round7-first-contact.txt')
 refac_first8 = refac_first(f'{V}/refactorings/EVAL-round8-first-contact.txt')
 refac_first9 = refac_first(f'{V}/refactorings/EVAL-round9-first-contact.txt')
+refac_first10 = refac_first(f'{V}/refactorings/EVAL-round10-first-contact.txt')
 rh = parse_eval(f'{V}/refactorings/EVAL-on-head.txt')
 alarm_head = sorted(k for k, v in rh.items() if v not in ('NONE', 'n/a'))
 refac_head = (f'all {len(rh)} are silent for all 20 properties' if rh and not alarm_head else (f'{len(alarm_head)} of {len(rh)} still alarm: {", ".join(alarm_head)}' if rh else 'not recorded'))
@@ -93,7 +95,7 @@ parts.append(open(f'{V}/design/part1_head.md').read().rstrip() + '\n\n')
 parts.append(cat.rstrip() + '\n\n')
 parts.append(open(f'{V}/design/part2.md').read().rstrip() + '\n\n')
 p4 = open(f'{V}/design/part4_seeds_head.md').read()
-p4 = p4.replace('@SUMMARY@', '\n'.join(summary)).replace('@TABLE@', '\n'.join(rows)).replace('@REFAC_FIRST1@', refac_first1).replace('@REFAC_FIRST2@', refac_first2).replace('@REFAC_FIRST3@', refac_first3).replace('@REFAC_FIRST4@', refac_first4).replace('@REFAC_FIRST5@', refac_first5).replace('@REFAC_FIRST6@', refac_first6).replace('@REFAC_FIRST7@', refac_first7).replace('@REFAC_FIRST8@', refac_first8).replace('@REFAC_FIRST9@', refac_first9).replace('@REFAC_HEAD@', refac_head)
+p4 = p4.replace('@SUMMARY@', '\n'.join(summary)).replace('@TABLE@', '\n'.join(rows)).replace('@REFAC_FIRST1@', refac_first1).replace('@REFAC_FIRST2@', refac_first2).replace('@REFAC_FIRST3@', refac_first3).replace('@REFAC_FIRST4@', refac_first4).replace('@REFAC_FIRST5@', refac_first5).replace('@REFAC_FIRST6@', refac_first6).replace('@REFAC_FIRST7@', refac_first7).replace('@REFAC_FIRST8@', refac_first8).replace('@REFAC_FIRST9@', refac_first9).replace('@REFAC_FIRST10@', refac_first10).replace('@REFAC_HEAD@', refac_head)
 parts.append(p4.rstrip() + '\n\n')
 parts.append(open(f'{V}/design/part3_falsealarms.md').read().rstrip() + '\n')
 open(f'{V}/DESIGN.md', 'w').write(''.join(parts))
